@@ -12,11 +12,14 @@ from proto import A, dumps
 from run import Case
 import zoo
 
+from kernels_tie import pre_build, restore_generated, build_failure_is_tie, build_ok, optional_obligation  # noqa: F401  (tie by translation)
+
 PROPERTY = "C07"
 LEAN_MODULE = "PyOak.Props.C07All"
 THEOREMS = ["PyOak.C07." + t for t in [
     "sat_snoc", "matchUpC_eq_sat", "findall_sound", "findall_complete", "findall_complete_mem", "findall_iff",
     "findall_nodup", "find_first", "matchUpT_eq", "matchUpT_eq_sat", "match_eq_sat", "chain_length_le"]]
+THEOREMS += ["PyOak.GenBridge.matchElem_eq_gen"]
 THEOREMS += ["PyOak.C07P." + t for t in ["xlex_render", "parseSteps_render", "xwalk_spec", "digits_significant",
                                           "parseXPath_render", "parseXPath_render_rel"]]
 RULE = ("grammar-derived xpaths (1-4 steps, every anywhere/field/index/class combination, indices 0-13 and "
